@@ -201,4 +201,21 @@ def waitTrapLoop (body : Body) : List Nat → TrapMap → Int → TrapMap × Opt
     | some (c, e, d) => (r.1, some (s, c, e, d))
     | none => waitTrapLoop body rest r.1 exit
 
+/-- the SIGINT shortcut of `wait_for_any_job_or_trap` (interactive shells: the internal disposition of SIGINT is
+    `Catch`): `signals.contains(SIGINT) && env.sigint_has_default_action()` — checked BEFORE the loop over the
+    caught signals, on the trap set in which `wait_for_signals` has already marked them pending -/
+def waitSigintShortcut (sigs : List Nat) (t : TrapMap) : Bool :=
+  sigs.contains SIGINT && sigintHasDefaultAction t
+
+/-- `wait_for_any_job_or_trap` after `wait_for_signals` returned `sigs`: the shortcut ends the built-in with
+    `Trapped(SIGINT, Interrupt(Some(384 + SIGINT)))` and runs no action and touches no flag; otherwise the loop -/
+def waitAfterSignals (body : Body) (sigs : List Nat) (t : TrapMap) (exit : Int)
+    : TrapMap × Option (Nat × Option Nat × Int × Option Divert) :=
+  if waitSigintShortcut sigs t then
+    (t, some (SIGINT, none, exit, some (.interrupt (some (384 + SIGINT)))))
+  else
+    match waitTrapLoop body sigs t exit with
+    | (t', some (s, c, e, d)) => (t', some (s, some c, e, d))
+    | (t', none) => (t', none)
+
 end YashModel.Trap
